@@ -14,6 +14,7 @@
 """
 import json, math, random
 from vf import core, gen
+from vf.num import gt, nmax as max, nmin as min
 
 PROPERTY = "C16"
 EPS = 2.0 ** -52
@@ -120,7 +121,7 @@ def run_case(case):
                 unit = abs(el[k1]) if k1 in ('a', 'm') else 1.0
                 for i in range(7):
                     sc = (pscale if i < 3 else vscale if i < 6 else abs(el['m'])) / unit
-                    if abs(got[i] - want[i]) > 1e-7 * sc + 1e-9 * abs(want[i]):
+                    if gt(abs(got[i] - want[i]), 1e-7 * sc + 1e-9 * abs(want[i])):
                         add('constructor:first-order:%s' % k1, 'G=%g %s elements %r: component %d constructor %r, finite difference %r' % (G, 'pal' if pal else 'classical', el, i, got[i], want[i]))
                         break
                 cells.add(json.dumps(['constructor1', k1, pal]))
@@ -145,7 +146,7 @@ def run_case(case):
                     u2 = abs(el[k2]) if k2 in ('a', 'm') else 1.0
                     for i in range(7):
                         sc = (pscale if i < 3 else vscale if i < 6 else abs(el['m'])) / (u1 * u2)
-                        if abs(got[i] - want[i]) > 1e-5 * sc + 1e-6 * abs(want[i]):
+                        if gt(abs(got[i] - want[i]), 1e-5 * sc + 1e-6 * abs(want[i])):
                             add('constructor:second-order:%s_%s' % (k1, k2), 'G=%g %s elements %r: component %d constructor %r, finite difference %r' % (G, 'pal' if pal else 'classical', el, i, got[i], want[i]))
                             break
                     cells.add(json.dumps(['constructor2', k1, k2, pal]))
@@ -388,7 +389,7 @@ def run_case(case):
             fac = math.exp(l_b)
             mx = max(abs(x) for p in a_ for x in p) + 1e-300
             dd = max(abs(x * fac / sB - y) for p, q in zip(b_, a_) for x, y in zip(p, q))
-            if dd > (1e-9 if integ != 'bs' else 1e-6) * mx:
+            if gt(dd, (1e-9 if integ != 'bs' else 1e-6) * mx):
                 add('rescale:changes-more-than-magnitude:%s%s' % (integ, ':unsafe' if (integ == 'whfast' and not safe) else ''), '%s safe=%d nsteps=%d: exp(lrescale)=%.3e: rescaled run differs from the unit run by %.3e of its size' % (integ, safe, nsteps, fac, dd / mx))
             if l_a != 0.0:
                 add('rescale:triggered-without-need:%s' % integ, 'lrescale=%r on a run whose variational vector stays of order 1' % l_a)
